@@ -18,7 +18,7 @@ use std::sync::Arc;
 use std::task::Poll;
 use std::time::Duration;
 
-const CLASSES: [&str; 13] = ["P8", "PB", "L40", "LS", "S4", "L16", "S1", "Z0", "ZA", "N4", "N8", "N40", "A32"];
+const CLASSES: [&str; 14] = ["P8", "PB", "L40", "LS", "S4", "L16", "S1", "Z0", "ZA", "N4", "N8", "N40", "A32", "P0"];
 const D_US: u32 = 3000;
 
 #[derive(Clone, Debug)]
